@@ -105,9 +105,20 @@ def run(ctx):
 
     with ctx.rule('R14.5', 'dropping an iterator early runs it to completion', floor=1) as r:
         fnp = "<confirm::Iter<'a, F> as std::ops::Drop>::drop"
-        fn = ctx.fn(fnp)
-        t = H.term(fn['hir'])
-        r.eq('drop', t, 'loop[While] if !self.done {{let _ = %s(self)}} else {{break}}' % NEXT, ctx.site(fnp), why='confirmations covered by a dropped iterator must not be lost or re-emitted')
+        rows = P.table(ctx, fnp, ['self'])
+        CALL = '%s(self)' % NEXT
+        going = [x for x in rows if x.done == 'iterate']
+        leaving = [x for x in rows if x.done != 'iterate']
+        # the loop calls next() again and again and stops only when the iterator says it is finished: its done flag, or a None
+        # (R14.4 shows that next() returns None only with the flag set)
+        stop_ok = all(x.conds in ([('self.done', True)], [(CALL, 'None')], [('std::iter::Iterator::by_ref(self)', 'None')]) or
+                      (len(x.conds) == 1 and x.conds[0][1] == 'None' and 'next(' in str(x.conds[0][0])) for x in leaving)
+        BY = 'std::iter::Iterator::by_ref(self)'
+        exhausts = len(rows) == 1 and not rows[0].conds and [e for e in rows[0].effects if e != BY] == ['for _ in %s {' % BY, '}']  # `for _ in self.by_ref() {}`: next() until None, by definition of `for`
+        r.check('drop', exhausts or going and all(any(e == CALL or e.endswith('::next(self)') or '::next(std::iter::Iterator::by_ref(self))' in e for e in x.effects) for x in going) and leaving and stop_ok
+                and not [x for x in rows if x.done in ('return', 'panic')], ctx.site(fnp),
+                built=[x.row() for x in rows], expected='loop { next() } until self.done / None',
+                why='confirmations covered by a dropped iterator must not be lost or re-emitted')
 
     with ctx.rule('R14.6', 'every way of making a smoother fixes `expected` from the caller or to 1: one struct literal, new() = with_expected_delivery_tag(1), Default = new()', floor=4) as r:
         WITH = 'confirm::ConfirmSmoother::with_expected_delivery_tag'
